@@ -201,3 +201,21 @@ add("C24", "sampler cached on the instance", "nifty/re/optimize_kl.py", "       
     "        sampler = Partial(self.draw_linear_residual, **kwargs)\n        self._last_sampler = sampler\n", "R24.4")
 add("C01", "sandwich scaling shortcut squares a complex factor", OPS + "sandwich_operator.py", "fct = abs(bun._factor)**2", "fct = bun._factor**2", "R01.4")
 VARIANTS = V
+
+add("C23", "bcast master is rank zero", "nifty/cl/utilities.py", "    master = comm.Get_rank() == root", "    master = comm.Get_rank() == 0", "R23.6")
+add("C23", "send skips the contiguity copy for Fortran order", "nifty/cl/utilities.py", "        shp_orig = obj.shape\n        obj = np.ascontiguousarray(obj).reshape(shp_orig)\n",
+    "        if not obj.flags.forc:\n            shp_orig = obj.shape\n            obj = np.ascontiguousarray(obj).reshape(shp_orig)\n", "R23.5")
+add("C23", "send asserts before coercing", "nifty/cl/utilities.py", "    if dtype is np.ndarray:\n        # Partial sums of 0-d arrays are numpy scalars\n        obj = np.asarray(obj)\n    assert isinstance(obj, dtype)",
+    "    assert isinstance(obj, dtype)", "R23.5")
+VARIANTS = V
+
+add("C07", "distributor reuses its output buffer", OPS + "distributors.py", "        oarr = np.empty_like(arr, shape=self._pshape, dtype=x.dtype)\n        oarr[()] = arr[(slice(None), self._dofdex, slice(None))]",
+    "        if getattr(self, '_obuf', None) is None:\n            self._obuf = np.empty_like(arr, shape=self._pshape, dtype=x.dtype)\n        oarr = self._obuf\n        oarr[()] = arr[(slice(None), self._dofdex, slice(None))]", "R07.7")
+add("C07", "AnyArray strips subclasses with asarray", "nifty/cl/any_array.py", "        if np.isscalar(arr):\n            arr = np.array(arr)\n",
+    "        if np.isscalar(arr):\n            arr = np.array(arr)\n        elif isinstance(arr, np.ndarray) and type(arr) is not np.ndarray:\n            arr = np.asarray(arr)\n", "R07.6")
+VARIANTS = V
+
+add("C21", "repeated iteration aliases the previous seed sequence", "nifty/cl/minimization/optimize_kl.py", "            sseqs[iglobal] = sseq_dup", "            sseqs[iglobal] = sseqs[iglobal-1]", "R21.7")
+add("C21", "resume rebuilds the state without the key", "nifty/re/optimize_kl.py", "        opt_vi_st = opt_vi_st._replace(config=opt_vi_st_init.config)",
+    "        opt_vi_st = opt_vi_st_init._replace(nit=opt_vi_st.nit, sample_state=opt_vi_st.sample_state, minimization_state=opt_vi_st.minimization_state)", "R21.8")
+VARIANTS = V
